@@ -618,7 +618,10 @@ pub fn judge(world: &World) -> Judgement {
                             LineEdit::Removed { .. } => b.start_line < *line && *line <= b.end_line,
                             _ => b.start_line < *line && *line < b.end_line,
                         }),
-                        false,
+                        // the block's own start tag line was re-written
+                        f.diff.edits().iter().any(|(line, edit)| {
+                            *line == b.start_line && matches!(edit, LineEdit::Replaced { old } if is_tag_rewrite(old))
+                        }),
                     ),
                 }
             };
@@ -956,6 +959,11 @@ pub fn invalid_reason(world: &World) -> Option<String> {
                 }
             }
             let edits = f.diff.edits();
+            if renamed_from.is_some()
+                && edits.iter().any(|(_, e)| matches!(e, LineEdit::Replaced { old } if is_tag_rewrite(old)))
+            {
+                return Some("re-written tag line in a renamed file (git may not see the rename)".into());
+            }
             for w in edits.windows(2) {
                 if w[1].0 < w[0].0 + 2 {
                     return Some("two edits on the same or on adjacent lines".into());
@@ -998,6 +1006,18 @@ pub fn invalid_reason(world: &World) -> Option<String> {
                         return Some("removed line right behind an end tag".into());
                     }
                     continue;
+                }
+                if let LineEdit::Replaced { old } = edit {
+                    if is_tag_rewrite(old) {
+                        // a re-written start tag (single-line tags only; no tilde in the new line)
+                        if !r.blocks.iter().any(|b| b.start_line == l && b.tag_lines == 1) {
+                            return Some("tag re-write on a line that is not a single-line start tag".into());
+                        }
+                        if r.lines[l - 1].contains('~') {
+                            return Some("tag re-write whose new line contains a tilde".into());
+                        }
+                        continue;
+                    }
                 }
                 if is_tag(l) {
                     return Some("inserted line is a tag line".into());
